@@ -12,19 +12,26 @@ EXTENDS Naturals, Integers, Sequences, FiniteSets, TLC, Json, IOUtils
 Tier == IF "TIER" \in DOMAIN IOEnv THEN IOEnv.TIER ELSE "quick"
 Quick == Tier = "quick"
 
-Loops == {"while", "for", "dowhile", "labelled", "recursion", "mutual", "regex_backtrack", "regex_loop", "regex_lookahead", "nested_eval_loop"}
+\* catastrophic backtracking reached through every regex-consuming API x every way to construct the regex
+RxApis == {"test", "exec", "match", "search", "replace", "replaceAll", "split"}
+RxCtors == {"literal", "RegExp_str", "new_RegExp_str", "new_RegExp_regex", "RegExp_regex", "string_pattern", "lookahead_copy"}
+RxLoops == {"rx_" \o a \o "_" \o c : a \in RxApis, c \in RxCtors}
+BaseLoops == {"while", "for", "dowhile", "labelled", "recursion", "mutual", "regex_backtrack", "regex_loop", "regex_lookahead", "nested_eval_loop"}
+Loops == BaseLoops \cup RxLoops
 Places == {"top", "function", "arrow", "ctor", "cb_forEach", "cb_map", "cb_filter", "cb_reduce", "cb_reduceRight",
            "cb_some", "cb_every", "cb_find", "cb_findIndex", "cb_sort", "getter", "setter", "valueOf", "call", "apply", "bind",
            "eval", "Function", "eval_in_eval", "cb_in_cb"}
 Wraps == {"bare", "try_catch", "try_finally", "try_catch_finally", "catch_loops_again", "finally_loops_again", "inner_fn_try"}
 Ts == IF Quick THEN {2500} ELSE {2500, 7300}
 Mems == IF Quick THEN {0} ELSE {0, 10000000}
-QuickPick(c) == \/ c.wrap = "bare"
-                \/ c.place \in {"top", "cb_forEach", "getter", "eval"} 
+QuickPick(c) == \/ c.wrap = "bare" /\ c.loop \in BaseLoops
+                \/ c.loop \in RxLoops /\ c.place \in {"top", "cb_map", "getter"} /\ c.wrap \in {"bare", "try_catch"} /\ ~c.finite
+                \/ c.place \in {"top", "cb_forEach", "getter", "eval"} /\ c.loop \in BaseLoops
                 \/ c.loop \in {"while", "regex_backtrack"} /\ c.place \in {"function", "cb_sort", "valueOf", "apply", "Function"}
 Cases == {c \in [loop : Loops, place : Places, wrap : Wraps, t : Ts, m : Mems, finite : BOOLEAN] :
             /\ (Quick => QuickPick(c))
             /\ (c.finite => c.wrap \in {"bare", "try_catch"} /\ c.m = 0)
+            /\ (c.loop \in RxLoops => ~c.finite /\ c.place \in {"top", "function", "cb_map", "cb_sort", "getter", "valueOf", "eval", "call"})
             /\ (c.loop \in {"recursion", "mutual"} => c.m = 0)}     \* with M set, runaway recursion ends in MemoryLimitError first (C02)
 
 VARIABLES ph, cur, rec_i
@@ -42,6 +49,9 @@ Recs == ndJsonDeserialize(IOEnv.OBS_FILE)
 Verdict(r) ==
   IF r.finite THEN (IF r.o = "value" /\ r.isnum THEN "pass"
                     ELSE IF r.o = "timelimit" THEN "stopped-although-finished-in-time" ELSE "finite-twin-failed:" \o r.o)
+  \* a script that finished before the deadline legitimately returns its value (e.g. a construction form the engine
+  \* treats differently from ECMAScript: that is another property's subject); after the deadline a value is made up
+  ELSE IF r.o \in {"value", "jserror"} /\ r.steps <= r.t THEN "pass"
   ELSE IF r.o = "value" THEN "returned-a-value-after-the-deadline"
   ELSE IF r.o = "hang" THEN "never-stopped"
   ELSE IF r.o # "timelimit" THEN "wrong-error:" \o r.o
